@@ -52,7 +52,8 @@ def cases(draw, tier):
         groups.append(g)
     return dict(groups=groups, layout=layout, family=family, allow=allow, lr=draw(lrs), weight_decay=draw(wds),
                 lr_kind=draw(st.sampled_from(["float", "float", "tensor32", "tensor64"])), independent=draw(st.sampled_from([True, True, True, False])),
-                steps=draw(st.integers(1, 3)), seed=draw(st.integers(0, 10**6)), via=draw(st.sampled_from(["scaled_parameters", "class"])))
+                steps=draw(st.integers(1, 3)), seed=draw(st.integers(0, 10**6)), via=draw(st.sampled_from(["scaled_parameters", "class"])),
+                positional=draw(st.integers(0, 3)) == 0)
 
 
 def mk_lr(kind, v):
@@ -125,17 +126,26 @@ def run(c) -> CaseResult:
     shared_snap = snapshot(shared)
     fam = c["family"]
     res.labels += [f"layout={c['layout']}", f"lr={kind}", f"family={fam}", f"independent={c['independent']}", f"via={c['via']}"]
+    if c.get("positional"):
+        res.labels.append("lr-positional")
     optimizer = None
     try:
         if c["via"] == "scaled_parameters":
             fn = uo.lr_scale_func_adam if fam == "adamw" else uo.lr_scale_func_sgd(None)
-            out = uo.scaled_parameters(arg, fn, lr=shared, weight_decay=c["weight_decay"], independent_weight_decay=c["independent"],
-                                       allow_non_unit_scaling_params=c["allow"])
+            if c.get("positional"):  # lr, weight_decay, independent_weight_decay in signature order
+                out = uo.scaled_parameters(arg, fn, shared, c["weight_decay"], c["independent"], allow_non_unit_scaling_params=c["allow"])
+            else:
+                out = uo.scaled_parameters(arg, fn, lr=shared, weight_decay=c["weight_decay"], independent_weight_decay=c["independent"],
+                                           allow_non_unit_scaling_params=c["allow"])
             out = list(out)
         else:
             cls = uo.AdamW if fam == "adamw" else uo.SGD
-            optimizer = cls(arg, lr=shared, weight_decay=c["weight_decay"], independent_weight_decay=c["independent"],
-                            allow_non_unit_scaling_params=c["allow"])
+            if c.get("positional"):  # the learning rate as the second positional argument, as for torch's own optimizers
+                optimizer = cls(arg, shared, weight_decay=c["weight_decay"], independent_weight_decay=c["independent"],
+                                allow_non_unit_scaling_params=c["allow"])
+            else:
+                optimizer = cls(arg, lr=shared, weight_decay=c["weight_decay"], independent_weight_decay=c["independent"],
+                                allow_non_unit_scaling_params=c["allow"])
             out = optimizer.param_groups
     except Exception as e:  # noqa: BLE001
         res.fail(exc_bucket(f"C11.raises:{c['via']}", e), f"{type(e).__name__}: {e}")
